@@ -11,6 +11,26 @@ func TestVerifC26(t *testing.T) {
 	w := verifOpen(t, "C26")
 	defer w.Close()
 	c04RunAll(w, func(i int, r *rand.Rand) c04Plan {
+		// MAP channel ("stream or map broker"): the connection (a map subscription, see c04Op.Map) and another
+		// subscriber leave one after another; the dissolver job of the last leaver must unsubscribe the node
+		// in the MAP broker.  Observation bsub = subscribed in the stream or in the map broker.
+		if i == 1 || i == 2 {
+			mainFirst := i == 1
+			return c04Plan{Name: "map-channel/two-leavers", NCh: 1, Map: true, Drain: true, Armed: []c04Gk{c04GkSubH},
+				Script: func(e *c04Eng, r *rand.Rand) {
+					c04Connect(e)
+					e.spawn(c04Op{Kind: "subcli", Ch: 0, Map: true})
+					e.release(e.parkOf(c04GkSubH), true)
+					e.otherAdd(0, true)
+					if mainFirst {
+						e.spawn(c04Op{Kind: "unsubsrv", Ch: 0})
+						e.otherRem(0)
+					} else {
+						e.otherRem(0)
+						e.spawn(c04Op{Kind: "unsubsrv", Ch: 0})
+					}
+				}}
+		}
 		p := c04Plans(i, r, i%5 != 4)
 		if i%4 != 0 {
 			// make sure the broker gates take part
